@@ -1,0 +1,35 @@
+//go:build verif
+// +build verif
+
+package main
+
+import (
+	"net/http"
+	neturl "net/url"
+	"os"
+)
+
+// verifRedirect sends every request to the server named by VERIF_WORDLIST_URL,
+// keeping the request path. It only exists in builds with the verif tag.
+type verifRedirect struct {
+	base *neturl.URL
+	next http.RoundTripper
+}
+
+func (v verifRedirect) RoundTrip(req *http.Request) (*http.Response, error) {
+	r2 := req.Clone(req.Context())
+	r2.URL.Scheme = v.base.Scheme
+	r2.URL.Host = v.base.Host
+	r2.Host = v.base.Host
+	return v.next.RoundTrip(r2)
+}
+
+func init() {
+	if s := os.Getenv("VERIF_WORDLIST_URL"); s != "" {
+		base, err := neturl.Parse(s)
+		if err != nil {
+			panic(err)
+		}
+		http.DefaultTransport = verifRedirect{base: base, next: http.DefaultTransport}
+	}
+}
